@@ -2,9 +2,12 @@ package props
 
 import (
 	"context"
+	"crypto/tls"
 	"encoding/json"
 	"errors"
 	"fmt"
+	"io"
+	"net"
 	"runtime"
 	"strings"
 	"sync"
@@ -116,7 +119,16 @@ func c20Run(ctx *core.Ctx) {
 		}
 		core.Strings([]string{"temp", "perm"}, 5, func(parts []string) {
 			emit(c20Case{Kind: "accept", Accept: append([]string{}, parts...)})
+			emit(c20Case{Kind: "accept", Accept: append([]string{}, parts...), Direct: true}) // end with Shutdown instead of Close
 		})
+		// connections that are still in their (implicit) TLS handshake, or idle, when Close / Shutdown fires
+		for _, st := range []string{"tls-stalled", "tls-half", "plain-idle", "plain-greeted"} {
+			for _, how := range []string{"Close", "Shutdown"} {
+				for rep := 0; rep < 3; rep++ {
+					emit(c20Case{Kind: "stalled", Transfer: st, Callback: how, Seed: uint64(rep)})
+				}
+			}
+		}
 		for i := 0; i < nReplay; i++ {
 			emit(c20Case{Kind: "replay", Seed: uint64(i)})
 		}
@@ -134,6 +146,8 @@ func c20Exec(ctx *core.Ctx, c c20Case) {
 		c20Concurrent(ctx, c)
 	case "accept":
 		c20Accept(ctx, c)
+	case "stalled":
+		c20Stalled(ctx, c)
 	case "replay":
 		c20Replay(ctx, c)
 	}
@@ -620,7 +634,7 @@ func c20Concurrent(ctx *core.Ctx, c c20Case) {
 }
 
 func c20Accept(ctx *core.Ctx, c c20Case) {
-	ctx.Eval(fmt.Sprintf("accept|%v", c.Accept), true)
+	ctx.Eval(fmt.Sprintf("accept|%v|%v", c.Accept, c.Direct), true)
 	l := rec.NewLog()
 	srv := smtp.NewServer(rec.NewBackend(l, rec.Plain))
 	srv.ErrorLog = l
@@ -674,6 +688,38 @@ func c20Accept(ctx *core.Ctx, c c20Case) {
 		default:
 		}
 		cEnd.Close()
+		if c.Direct {
+			// every connection has ended: Shutdown must return nil without waiting for its context
+			sctx, cancel := context.WithCancel(context.Background())
+			sd := make(chan error, 1)
+			go func() { sd <- srv.Shutdown(sctx) }()
+			select {
+			case err := <-sd:
+				cancel()
+				if err != nil {
+					fail("C20:shutdown-result", fmt.Sprintf("Shutdown with no active connection returned %v", err))
+					return
+				}
+			case <-time.After(wire.Watchdog):
+				lines, blocked := c20Blocked()
+				cancel()
+				if blocked || len(lines) == 0 {
+					fail("C20:shutdown-does-not-return", fmt.Sprintf("after %d temporary Accept errors and with no active connection Shutdown does not return", len(c.Accept)))
+				} else {
+					ctx.Inconclusive("C20 accept/Shutdown watchdog")
+				}
+				return
+			}
+			select {
+			case err := <-serveDone:
+				if err != nil {
+					fail("C20:serve-result-after-close", fmt.Sprintf("Serve returned %v after Shutdown", err))
+				}
+			case <-time.After(wire.Watchdog):
+				fail("C20:serve-does-not-return", "Serve did not return after Shutdown")
+			}
+			return
+		}
 		if err := srv.Close(); err != nil {
 			fail("C20:close-result", fmt.Sprintf("Close returned %v", err))
 			return
@@ -737,4 +783,96 @@ func c20Replay(ctx *core.Ctx, c c20Case) {
 		}
 		c13Exec(scratch, c13Case{Rcpts: rc, Calls: calls, Timing: []string{"before", "after", "interleaved"}[r.Intn(3)], RetErr: r.Bool(), Transfer: []string{"data", "bdat1", "bdat3"}[r.Intn(3)], Backend: "lmtp", Panic: []string{"", "", "aftercalls", "late"}[r.Intn(4)]})
 	}
+}
+
+// c20Stalled: a connection that has not got past its implicit TLS handshake (or is simply idle)
+// when Close fires must be ended by Close; Shutdown must wait for it and return once the peer
+// goes away. No handler may stay behind.
+func c20Stalled(ctx *core.Ctx, c c20Case) {
+	ctx.Eval(fmt.Sprintf("stalled|%s|%s|%d", c.Transfer, c.Callback, c.Seed), true)
+	rig := newRig(modeSMTP, nil)
+	cEnd, sEnd := memconn.Pipe(rig.Log)
+	cEnd.SetWatchdog(wire.Watchdog)
+	isTLS := strings.HasPrefix(c.Transfer, "tls")
+	if isTLS {
+		rig.L.Push(tls.Server(sEnd, wire.ServerTLS()))
+	} else {
+		rig.L.Push(sEnd)
+	}
+	switch c.Transfer {
+	case "tls-half":
+		cEnd.Write([]byte{22, 3, 1, 0, 200, 1, 0}) // the beginning of a ClientHello record, then silence
+	case "plain-greeted":
+		buf := make([]byte, 256)
+		cEnd.Read(buf)
+		cEnd.Write([]byte("EHLO c.test\r\n"))
+	}
+	rig.L.WaitDrained()
+	if idle, err := cEnd.WaitPeerIdle(wire.Watchdog); err != nil || !idle {
+		cEnd.Close()
+		rig.Srv.Close()
+		ctx.Inconclusive("C20 stalled: server did not park")
+		return
+	}
+	fail := func(sig, msg string, extra []string) {
+		ctx.Violate(sig, msg+fmt.Sprintf(" [state=%s ended by %s]", c.Transfer, c.Callback), c, append(rig.Log.Strings(40), extra...))
+	}
+	if c.Callback == "Close" {
+		rig.Srv.Close()
+		// the connection must have been ended by Close: the peer sees EOF
+		buf := make([]byte, 512)
+		for {
+			_, err := cEnd.Read(buf)
+			if err == nil {
+				continue
+			}
+			if !isEOF(normNetErr(err)) {
+				lines, _ := c20Blocked()
+				fail("C20:close-leaves-connection-open", fmt.Sprintf("after Server.Close the connection is still open (read: %v)", err), lines)
+				cEnd.Close()
+				return
+			}
+			break
+		}
+		if _, ok := rig.WaitServe(); !ok {
+			fail("C20:serve-does-not-return", "Serve did not return after Close", nil)
+		}
+		cEnd.Close()
+		return
+	}
+	sctx, cancel := context.WithCancel(context.Background())
+	defer cancel()
+	sd := make(chan error, 1)
+	go func() { sd <- rig.Srv.Shutdown(sctx) }()
+	for i := 0; i < 100; i++ {
+		runtime.Gosched()
+	}
+	select {
+	case err := <-sd:
+		fail("C20:shutdown-returned-before-connections-ended", fmt.Sprintf("Shutdown returned %v while a connection was still open", err), nil)
+		cEnd.Close()
+		return
+	default:
+	}
+	cEnd.Close() // the peer goes away: now Shutdown must return
+	select {
+	case err := <-sd:
+		if err != nil {
+			fail("C20:shutdown-result", fmt.Sprintf("Shutdown returned %v after the last connection ended", err), nil)
+		}
+	case <-time.After(wire.Watchdog):
+		lines, blocked := c20Blocked()
+		if blocked || len(lines) == 0 {
+			fail("C20:shutdown-does-not-return", "the last connection has ended but Shutdown does not return", lines)
+		} else {
+			ctx.Inconclusive("C20 stalled/Shutdown watchdog")
+		}
+	}
+}
+
+func normNetErr(err error) error {
+	if errors.Is(err, io.EOF) || errors.Is(err, net.ErrClosed) {
+		return io.EOF
+	}
+	return err
 }
